@@ -178,15 +178,3 @@ Definition eventize (P : prog) : prog :=
      parents := map (fun x => let '(_, p, isev) := x in
                      if p =? -1 then -1 else if isev : bool then remap ev p else remap real p) res;
      maxStack := maxStack P |}.
-
-Definition compile_cfg (cfg : config) (t : tree) : prog :=
-  if events cfg then eventize (compile t) else compile t.
-
-(* Compile after optimisation: the capacity checks, then the program *)
-Definition compile_checked (cfg : config) (t : tree) : cerr + prog :=
-  match check t with
-  | inl e => inl e
-  | inr _ =>
-    let P := compile_cfg cfg t in
-    if event_max_nodes <? lenZ (nodes P) then inl (CTooManyEventNodes (lenZ (nodes P))) else inr P
-  end.
